@@ -95,7 +95,9 @@ def grids(est):
     return [(dict(n_constraints=nc, prior=p, max_iter=5, weights=w), p == 'identity')
             for nc, p, w in ((None, 'identity', None), (6, 'identity', 'given'), (9, 'covariance', None))]
   if est == 'RCA_Supervised':
-    return [(dict(n_chunks=nch, chunk_size=cs), True) for nch, cs in ((3, 2), (4, 2), (2, 3), (2, 2), (1, 3))]
+    # with dimensionality reduction RCA also uses the TOTAL covariance -- of the chunked points only ("unlabelled points contribute nothing")
+    return ([(dict(n_chunks=nch, chunk_size=cs), True) for nch, cs in ((3, 2), (4, 2), (2, 3), (2, 2), (1, 3))]
+            + [(dict(n_chunks=nch, chunk_size=cs, n_components=k), True) for nch, cs, k in ((3, 2, 2), (4, 2, 1), (2, 3, 2))])
   return ([(dict(k_genuine=kg, k_impostor=ki, basis='triplet_diffs', n_basis=nb, max_iter=40, output_iter=10, batch_size=4), True)
            for kg, ki, nb in ((1, 1, 6), (2, 2, 6), (3, 1, 8), (1, 3, 8), (2, 3, 6))]
           + [(dict(k_genuine=2, k_impostor=2, basis='lda', n_basis=6, max_iter=40, output_iter=10, batch_size=4), False)])
